@@ -284,7 +284,18 @@ func (r *PaginatedResourceRepository[ResourceType, OptionsType]) Paginate(
 
 	switch v := any(paginationQuery).(type) {
 	case OffsetPaginatedQuery[OptionsType]:
+		// column and order come from a client-supplied cursor; the column ends up in the
+		// ORDER BY clause and the paginators dereference the order
+		if _, field := r.resourceHandler.Schema().GetFieldByNameOrAlias(v.Column); field == nil || !field.IsPaginated {
+			return nil, NewErrInvalidQuery("invalid property '%s' for pagination", v.Column)
+		}
+		if !isValidOrder(v.Order) {
+			return nil, NewErrInvalidQuery("invalid cursor: missing or invalid order")
+		}
 	case ColumnPaginatedQuery[OptionsType]:
+		if !isValidOrder(v.Order) {
+			return nil, NewErrInvalidQuery("invalid cursor: missing or invalid order")
+		}
 	case InitialPaginatedQuery[OptionsType]:
 
 		if v.Column == "" {
@@ -299,7 +310,7 @@ func (r *PaginatedResourceRepository[ResourceType, OptionsType]) Paginate(
 
 		_, field := r.resourceHandler.Schema().GetFieldByNameOrAlias(v.Column)
 		if field == nil {
-			return nil, fmt.Errorf("invalid property '%s' for pagination", v.Column)
+			return nil, NewErrInvalidQuery("invalid property '%s' for pagination", v.Column)
 		}
 
 		if !field.IsPaginated {
@@ -335,8 +346,9 @@ func (r *PaginatedResourceRepository[ResourceType, OptionsType]) Paginate(
 		resourceQuery = v.Options
 	case ColumnPaginatedQuery[OptionsType]:
 		fieldName, field := r.resourceHandler.Schema().GetFieldByNameOrAlias(v.Column)
-		if field == nil {
-			return nil, fmt.Errorf("invalid property '%s' for pagination", v.Column)
+		// a column cursor is only ever issued for a paginated field of a type that maps to a number
+		if field == nil || !field.IsPaginated || !field.Type.IsPaginated() {
+			return nil, NewErrInvalidQuery("invalid property '%s' for pagination", v.Column)
 		}
 		paginator = newColumnPaginator[ResourceType, OptionsType](v, fieldName, field.Type)
 		resourceQuery = v.Options
@@ -372,6 +384,10 @@ func (r *PaginatedResourceRepository[ResourceType, OptionsType]) Paginate(
 	}
 
 	return paginator.BuildCursor(ret)
+}
+
+func isValidOrder(order *paginate.Order) bool {
+	return order != nil && (*order == paginate.OrderAsc || *order == paginate.OrderDesc)
 }
 
 func NewPaginatedResourceRepository[ResourceType, OptionsType any](
